@@ -11,7 +11,10 @@
 (* A use site is one of                                                    *)
 (*   "ann"   x : T = LIT;           "arith"  t : T = 1;  r := t * LIT;      *)
 (*   "arg"   f(LIT) for f :: (x: T) "local"  x := LIT;   "global" G :: LIT; *)
-(* The first three use the literal AT type T: accepted iff the value fits   *)
+(*   "annc"  x : T : LIT;           "gann"   G : T : LIT;  (annotated global)*)
+(*   "ret"   f :: () -> T { LIT }   "field"  S.{ f = LIT } with f: T        *)
+(*   "elem"  a : [2]T = .[LIT, 1];  "asg"    x : T = 0; x = LIT;            *)
+(* All but "local" / "global" use the literal AT type T: accepted iff the value fits *)
 (* T, and then the stored bytes are the value's.  The last two have no      *)
 (* annotation: if accepted, the value observed at run time (an integer of   *)
 (* whatever type the defaulting rules chose) equals the written value.      *)
@@ -40,7 +43,7 @@ MaxOf(t) == Resize(IF t.s THEN MaxS(t.w) ELSE MaxU(t.w), W, FALSE)
 Fits(t, v) == ULe(v, MaxOf(t))
 Stored(t, v) == Resize(v, t.w, FALSE)
 
-TypedSites == {"ann", "arith", "arg"}
+TypedSites == {"ann", "arith", "arg", "annc", "gann", "ret", "field", "elem", "asg"}
 (* c = [sp, site, t];  what the language prescribes *)
 Accept(c) == IF c.site \in TypedSites THEN Fits(c.t, Value(c.sp)) ELSE TRUE
 (* observed: acc = the compiler accepted; o = bytes printed; for untyped sites sz / sg are the
